@@ -524,7 +524,7 @@ CONFIGS = {
 # definition; wild: the name is governed by an inherited wildcard while the subclass declares a shorter wildcard of another type;
 # subprop: a validated Property of a base class whose setter the subclass overrides; subdefault: the subclass re-declares the
 # attribute with a plain default value (same definition, new default)
-ROUTES = ("chain", "chainproto", "wild", "subprop", "subdefault")
+ROUTES = ("chain", "chainproto", "wild", "subprop", "subdefault", "wildadded", "onecharprefix")
 ROUTE_INNER = {"Int": ["none", "bool", "int", "intsub", "indexobj", "float", "str"],
                "Float": ["none", "bool", "int64", "float", "floatsub", "floatobj", "str"],
                "RangeFloatConst": ["bool", "int64", "indexobj"]}
@@ -588,6 +588,45 @@ def build_route(route, ttype, inner):
                 d["x"] = d.pop("limit_max_x")
             return d
         return o, "limit_max_x", o, "limit_max_x", state, ("limit_max_x",)
+    if route == "wildadded":
+        # the wildcards are added to the finished class, the longer one first (the prefix table must stay longest-first)
+        class Owner(A):
+            other = Int(7)
+        Owner.add_class_trait("limit_max_", ttype)
+        Owner.add_class_trait("limit_", Str("s"))
+        o = Owner()
+
+        def state():
+            d = dict(o.__dict__)
+            if "limit_max_x" in d:
+                d["x"] = d.pop("limit_max_x")
+            return d
+        return o, "limit_max_x", o, "limit_max_x", state, ("limit_max_x",)
+    if route == "onecharprefix":
+        # a 'prefix*' deferral whose prefix is a single character: the target is '_' + name
+        from traits.api import DelegatesTo as _D
+
+        class T(A):
+            _x = ttype
+            x = Str("decoy")
+            other = Int(7)
+
+        class Owner(A):
+            t = Instance(T)
+            x = _D("t", prefix="_*")
+            other = Int(7)
+        t = T()
+        o = Owner(t=t)
+
+        def state():
+            d = {k: v for k, v in o.__dict__.items() if k not in ("t", "x")}
+            d.update({"t." + k: v for k, v in t.__dict__.items() if k != "_x"})
+            if "_x" in t.__dict__:
+                d["x"] = t.__dict__["_x"]
+            if "x" in o.__dict__:
+                d["local.x"] = o.__dict__["x"]
+            return d
+        return o, "x", t, "_x", state, ("x", "_x")
     if route == "subprop":
         class Base(A):
             x = Property(ttype)
